@@ -75,7 +75,8 @@ WithLocs(d, mesh) ==
       isper == "pc" \in DOMAIN mesh
       pre == [d EXCEPT !.loc = IF isper THEN loc0 @@ [pc |-> mesh.pc] ELSE loc0]
       full == [pre EXCEPT !.loc = [k \in DOMAIN pre.loc |-> IF k = "glob" THEN DofLocsImpl(pre) ELSE pre.loc[k]]]
-  IN IF isper THEN full @@ [per |-> [pc |-> mesh.pc, period |-> mesh.period]] ELSE full
+  IN IF isper THEN full @@ [per |-> [pc |-> mesh.pc, period |-> mesh.period]]
+     ELSE full @@ [orient |-> 0]        \* SamePointFromAllCells on the barycentre rows (all rows of ModelRef)
 
 \* dimensions the numbering code may read for an element on a mesh of this kind: the reference-cell dimension
 \* (current code).  MC_C04_olddim.cfg overrides it by DimsReadOld: element.dim of a vector wrapper = its number of
